@@ -15,7 +15,7 @@ func init() {
 		ID:    "C17",
 		Title: "Failed parses leave receiver and input untouched; string and bytes agree",
 		Run:   runC17,
-		Explanation: "C17.store: in each of the 8 pointer-receiver Unmarshal*/Scan methods no store into receiver-derived memory (direct, field-wise or through an in-repo callee that writes its receiver) can reach a return whose error operand is not the nil constant (CFG reachability over SSA). " +
+		Explanation: "C17.store: in each of the 8 pointer-receiver Unmarshal*/Scan methods no store into receiver-derived memory (direct, field-wise or through an in-repo callee that writes its receiver) can reach a return whose error operand is not the nil constant (CFG reachability over SSA; a store in the block where the error value merges runs after the merge; a store made by a callee does not count against a return that hands on that callee's own error if the callee passes the rule itself). " +
 			"C17.ro: alias analysis from every parser entry point: no element store, copy or append targets memory that may alias the input (conversions of the type parameter, sub-slices, FindSubmatch results); stdlib callees receiving an alias must be in the read-only summary table; a slice sharing the input's bytes is not stored where it outlives the call; aliases are followed through local cells (variables captured by closures) and into the closures themselves. C17.errinput: the methods of the typed parse errors, which keep the input in their Input field, do not write through an alias of it either (Error() formats a caller's []byte). " +
 			"C17.alias: result types contain no reference into the input (Date, Number, Size, ID have no pointer/slice/string fields; Ver's strings are produced by copying string(...) conversions); no unsafe in the value packages. " +
 			"C17.generic: one generic body per parser, in which no type switch/assertion/reflect inspects a T-typed value, no type assertion or errors.As target is a type built from T (*ParseError[T]: it matches for one instantiation only), and every fmt verb applied to a T-typed value prints string and []byte identically. C17.generic also reports every input-typed value that is converted to an interface and leaves the generic body other than as a %q/%s/%x operand of a constant format (fmt.Sprint, non-constant formats, helpers taking any).",
